@@ -435,6 +435,13 @@ class Interp:
     def await_(self, v):
         if isinstance(v, Coro):
             return v.thunk()
+        v2 = self.ctx.from_val(v) if isinstance(v, SV) else v
+        if isinstance(v2, Coro):
+            return v2.thunk()
+        if isinstance(v2, SV) and isinstance(v2.ty, TAbs) and "__await__" in v2.ty.methods:
+            from .calls import apply_contract
+
+            return apply_contract(self, v2.ty.methods["__await__"], [v2], {}, callee_label="%s.__await__" % v2.ty.name)
         raise Unsupported("await of %r" % (v,))
 
     def ex_JoinedStr(self, frame, e):
@@ -743,6 +750,10 @@ class Interp:
                 if reg.is_sub(other, cls):
                     ctx.assume(z3.Implies(isa(cidt, oid), isa(cidt, kid)))
             known.append(cls)
+            # the unknown class may BE one of the named classes: then its subclass facts are the concrete ones
+            for k1 in known + [base]:
+                for k2 in known + [base]:
+                    ctx.assume(z3.Implies(cidt == reg.cid(k1), isa(cidt, reg.cid(k2)) == reg.is_sub(k1, k2)))
         return isa(cidt, kid)
 
     def sym_exception(self, bound_cls, label="exc"):
@@ -755,8 +766,7 @@ class Interp:
         ctx.ghost[("symcls", cid.sexpr())] = []
         ctx.assume(self.isa_term(e, ExternalRef("BaseException")))
         ctx.assume(self.isa_term(e, bound_cls))
-        # a symbolic class is not one of the registered concrete ids
-        ctx.assume(cid > 100000)
+        ctx.assume(cid >= 1000)
         return e
 
     # ---- iteration helpers --------------------------------------------------------------------------
